@@ -2256,7 +2256,9 @@ class Compiler(compiler.Compiler):
             else:
                 value += item
 
-        value = sorted(value)
+        # A character given more than once ("aba", overlapping ranges)
+        # is one character of the alphabet.
+        value = sorted(set(value))
         encode_map = {ord(v): i for i, v in enumerate(value)}
         decode_map = {i: ord(v) for i, v in enumerate(value)}
 
